@@ -76,6 +76,20 @@ let () = iter_lines (fun l ->
                            | Err _ -> "G ? ?") in
            print_endline ("Ok " ^ hx p ^ " " ^ hx s ^ " " ^ cnt)
        | Err e -> print_endline ("Err " ^ err_name e))
+  | (["taylorreal"; nm; ll; kind] :: fl_ :: fpv :: grads :: fs :: blocks) ->
+      (* real callee bodies: blocks = "S|N nsel npure g..." (ZeroSigH0 state), fs = dataset weight factors *)
+      let zs b = (match b with
+        | flag :: nsel :: npure :: g ->
+            zerosig_callee numf (if flag = "S" then Some (List.map fl g) else None) (zi nsel) (zi npure)
+        | _ -> failwith "block") in
+      let subs = List.map zs blocks in
+      let c = (match kind with
+        | "zs" -> List.hd subs
+        | "md" -> multi_callee numf (List.map fl fs) subs
+        | "np" -> nsprofile_callee (multi_callee numf (List.map fl fs) subs)
+        | _ -> failwith "kind") in
+      pr_res (taylor numf (List.map zi fl_) (zi nm) (fl ll) (List.map fl fpv) c (List.map fl grads))
+  | [["tgobj"; c; s; n]] -> print_endline ("Ok " ^ hx (tg_objective numf (fl c) (fl s) (zi n)))
   | (["poly"; deg; p] :: tabs) ->
       let tab = List.map (fun t -> match t with
         | d :: "E" :: [nm] -> (int_of_string d, Err (err_of nm))
